@@ -239,11 +239,18 @@ class Renderer(object):
         if e == "mac":
             return "%s(%s)" % (self.p["macs"][x["mi"] - 1]["name"], ", ".join(self.ex(a) for a in x["args"]))
         if e == "throw":
+            if x.get("args"):       # an exception that carries a value: ExP(v) builds the exception domain
+                return "throw %s(%s)" % (x["exn"], ", ".join(self.ex(a) for a in x["args"]))
             return "throw %s" % x["exn"]
         if e == "try":
             # exn_has: how a handler names the exception's category; "(%s@Category)" when the exceptions are imported from
             # another unit (render_split(lib_exns=True)): the imported name is both a category and a domain
-            hs = "; ".join("E has %s => %s" % (getattr(self, "exn_has", "%s") % h["exn"], self.ex(h["body"])) for h in x["hs"])
+            def hbody(h):
+                if h.get("ps"):     # the carried value is read through the exception's export pv
+                    pt = dict((d_["exn"], d_["t"]) for d_ in self.p.get("exnp", []))[h["exn"]]
+                    return "{ %s: %s := (pv$E); %s }" % (h["ps"][0], tname(pt), self.ex(h["body"]))
+                return self.ex(h["body"])
+            hs = "; ".join("E has %s => %s" % (getattr(self, "exn_has", "%s") % h["exn"], hbody(h)) for h in x["hs"])
             fin = "" if x["fin"].get("e") == "none" else " finally %s" % self.ex(x["fin"])
             return "(try %s catch E in { %s; true => throw E; never }%s)" % (self.ex(x["body"]), hs, fin)
         if e == "error":
@@ -347,7 +354,13 @@ class Renderer(object):
         for m in p.get("macs", []):
             out.append("%s(%s) ==> %s;" % (m["name"], ", ".join(m["ps"]), self.ex(m["body"])))
         out += self.domain_decls()
+        payload = dict((d_["exn"], d_["t"]) for d_ in p.get("exnp", []))
         for ex in p.get("exns", []):
+            if ex in payload:
+                pt = tname(payload[ex])
+                out.append("define %s: Category == %s { pv: %s };" % (ex, self.D.get("exn_cat", "Exception with"), pt))
+                out.append("%s(v: %s): %s == add { pv: %s == v };" % (ex, pt, ex, pt))
+                continue
             out.append("define %s: Category == %s;" % (ex, self.D.get("exn_cat", "Exception with")))
             out.append("define %s: %s@Category == add;" % (ex, ex))
         # functions are emitted where they were created relative to the top-level forms: progen
